@@ -205,6 +205,66 @@ func execC17a(sc c17aScenario) *vstat.Outcome {
 			}
 		}
 	}
+	// the same accepted configuration applied again while requests keep arriving: whatever a
+	// server needs stays resolvable at every instant
+	if len(out.Violations) == 0 && len(cfg.Servers) > 0 {
+		stop := make(chan struct{})
+		var wg sync.WaitGroup
+		var mu sync.Mutex
+		for w := 0; w < 4; w++ {
+			wg.Add(1)
+			go func(w int) {
+				defer wg.Done()
+				for i := 0; ; i++ {
+					select {
+					case <-stop:
+						return
+					default:
+					}
+					s := cfg.Servers[(w+i)%len(cfg.Servers)]
+					addr := listenAddr(s.Addr)
+					if addr == "" || len(s.Locations) == 0 {
+						continue
+					}
+					var loc *config.LocationConfig
+					for k := range cfg.Locations {
+						if cfg.Locations[k].Name == s.Locations[i%len(s.Locations)] {
+							loc = &cfg.Locations[k]
+							break
+						}
+					}
+					if loc == nil {
+						continue
+					}
+					host := "c17.test"
+					if len(loc.Hosts) > 0 {
+						host = loc.Hosts[0]
+					}
+					method := "GET"
+					if i%3 == 0 {
+						method = "POST"
+					}
+					r := do(c17aCl, reqSpec{Method: method, Addr: addr, Host: host, URI: fmt.Sprintf("%s/reload-%d-%d", loc.Prefixes[0], w, i), Body: []byte("x")})
+					body := string(r.Raw)
+					if r.Err == "" && r.Code >= 500 && (strings.Contains(body, "cache dispatcher not found") || strings.Contains(body, "location not found") || strings.Contains(body, "upstream not found") || strings.Contains(body, "Upstream Not Found")) {
+						mu.Lock()
+						if len(out.Violations) < 3 {
+							out.Violate("C17", "unresolved-during-reload", "while the same accepted configuration was being applied again, a request for location %q through server %s failed with %d %q", loc.Name, s.Addr, r.Code, strings.TrimSpace(body))
+						}
+						mu.Unlock()
+					}
+				}
+			}(w)
+		}
+		for k := 0; k < 3; k++ {
+			if err := applyConfig(&cfg); err != nil {
+				break
+			}
+		}
+		close(stop)
+		wg.Wait()
+		out.Class("reapplied_under_traffic")
+	}
 	quoting := false
 	for _, x := range cfg.Caches {
 		if strings.ContainsAny(x.Name, ":#-'\"{}[],&*!|>%@`~? ") {
